@@ -51,8 +51,9 @@ def run(tier):
         n_main = len(base) + len(ctl)
         skip = sorted(set(unsupported) | set(empty))
         slices = []
-        for lo in range(0, n_main, CHUNK):
-            slices.append(dict(batch=path, range=[lo, min(lo + CHUNK, n_main)], skip=skip))
+        from vlib.checks import tcommon
+        for rg in tcommon.ranges(programs, n_main, CHUNK):
+            slices.append(dict(batch=path, range=rg, skip=skip))
         wslices = [dict(batch=path, range=[i, i + 1], skip=[]) for i in range(n_main, len(programs)) if i not in skip]
         pct = 300 if tier == "quick" else 1200
         rounds = 0
